@@ -39,16 +39,32 @@ use std::{
     path::{Path, PathBuf},
 };
 
+#[cfg(test)]
 use once_cell::sync::Lazy;
+use once_cell::sync::OnceCell;
 use rustix::{
     fs::{self as rustix_fs, Access, AtFlags},
     mount::{FsMountFlags, FsOpenFlags, MountAttrFlags, OpenTreeFlags},
 };
 
 /// A `procfs` handle to which is used globally by libpathrs.
+static GLOBAL_PROCFS_HANDLE_CELL: OnceCell<ProcfsHandle> = OnceCell::new();
+
+/// Get the global `procfs` handle, creating it on first use.
+///
+/// If no `/proc` handle can be created (for instance because the process has
+/// run out of file descriptors), the error is returned to the caller -- and
+/// nothing is cached, so a later call will try again -- rather than aborting
+/// the program.
+pub(crate) fn global_procfs_handle() -> Result<&'static ProcfsHandle, Error> {
+    GLOBAL_PROCFS_HANDLE_CELL.get_or_try_init(ProcfsHandle::new)
+}
+
+/// Infallible wrapper around [`global_procfs_handle`] for tests.
 // MSRV(1.80): Use LazyLock.
-pub(crate) static GLOBAL_PROCFS_HANDLE: Lazy<ProcfsHandle> =
-    Lazy::new(|| ProcfsHandle::new().expect("should be able to get some /proc handle"));
+#[cfg(test)]
+pub(crate) static GLOBAL_PROCFS_HANDLE: Lazy<&'static ProcfsHandle> =
+    Lazy::new(|| global_procfs_handle().expect("should be able to get some /proc handle"));
 
 /// Indicate what base directory should be used when doing `/proc/...`
 /// operations with a [`ProcfsHandle`].
